@@ -90,6 +90,14 @@ func frag(kind string) any {
 		return m("type", "object", "properties", m("k", m("type", "string")), "default", m("", 1))
 	case "arraynoitems":
 		return m("type", "array")
+	case "nullschema":
+		return nil
+	case "selfallof": // injected as definition F: it lists itself as an allOf branch
+		return m("type", "object", "allOf", []any{m("$ref", "#/$defs/F")})
+	case "selfanyof":
+		return m("type", "object", "anyOf", []any{m("$ref", "#/$defs/F"), m("type", "object")})
+	case "recallof": // a property that wraps the reference to its own definition in an allOf
+		return m("type", "object", "properties", m("v", m("type", "integer"), "child", m("allOf", []any{m("$ref", "#/$defs/F")})))
 	case "badgotype": // generates, but the emitted text is not valid Go (the tool warns and writes it unformatted)
 		return m("type", "string", "goJSONSchema", m("type", "map[string"))
 	}
@@ -261,7 +269,14 @@ func Materialize(s *Scenario, dir string) (args []string, wanted []string, err e
 		case "reffile":
 			sub := fmt.Sprintf("sub%d.json", k)
 			props(sch)["r"] = obj("$ref", sub)
-			if err = write(filepath.Join(in, sub), obj("$id", id+"/sub", "type", "object", "properties", obj("f", f))); err != nil {
+			var subDoc any = obj("$id", id+"/sub", "type", "object", "properties", obj("f", f))
+			switch a.Fault {
+			case "norootempty":
+				subDoc = obj()
+			case "norootdefsonly":
+				subDoc = obj("$id", id+"/sub", "$defs", obj("X", obj("type", "string")))
+			}
+			if err = write(filepath.Join(in, sub), subDoc); err != nil {
 				return
 			}
 			if s.OutMode == "perfile" {
